@@ -187,7 +187,7 @@ Section MarkArgs.
     - intros s. destruct (ma_fields s) as (_ & _ & _ & -> & _). apply Iunodup.
     - intros s v1 v2. destruct (ma_fields s) as (_ & _ & _ & -> & _). apply Ipuniq.
     - intros r. destruct (ma_fields (home r)) as (_ & _ & _ & -> & _). apply Ipcomp.
-    - intros s Hs. destruct (ma_fields s) as (_ & _ & _ & -> & ->). split; [apply Imarks; exact Hs|].
+    - intros s Hs. destruct (ma_fields s) as (_ & _ & Ed & Eu & Ef). rewrite Ed, Eu, Ef. split; [apply Imarks; exact Hs|].
       rewrite ma_sc. destruct (Nat.eqb_spec s c) as [->|]; [|apply Imarks; exact Hs].
       cbn [narguses sc']. pose proof ma_und_small. fold sc. pose proof (len_nonneg (sundeclared sc)).
       rewrite u16_small by lia. lia.
@@ -201,8 +201,8 @@ Section MarkArgs.
     split; [exact InvS_mark_args|]. split; [apply InvU_sset; exact U|].
     assert (E1 : frame_of st' home c
                  = mkF (fid (frame_of st home c)) (fisfunc (frame_of st home c)) (fdecl (frame_of st home c))
-                       (fund (frame_of st home c)) (length (fund (frame_of st home c)))).
-    { unfold frame_of. rewrite ma_sc, Nat.eqb_refl. cbn [fid fisfunc fdecl fund sparent sfunc sdeclared sundeclared narguses sc'].
+                       (fund (frame_of st home c)) (length (fund (frame_of st home c))) (fnfor (frame_of st home c))).
+    { unfold frame_of. rewrite ma_sc, Nat.eqb_refl. cbn [fid fisfunc fdecl fund fnfor sparent sfunc sdeclared sundeclared narguses nfordecls sc'].
       fold sc. f_equal. rewrite map_length. pose proof ma_und_small. pose proof (len_nonneg (sundeclared sc)).
       rewrite u16_small by lia. unfold len. lia. }
     assert (E2 : map (frame_of st' home) rest = map (frame_of st home) rest).
@@ -215,3 +215,99 @@ Section MarkArgs.
     rewrite E1, E2, E3. unfold st'. rewrite nscopes_sset. reflexivity.
   Qed.
 End MarkArgs.
+
+(* ---- MarkForStmt -------------------------------------------------------------------------------- *)
+Section MarkFor.
+  Variables (st : state) (log stk : list nat) (c : nat) (rest : list nat) (home : nat -> nat).
+  Hypothesis Hstk : stk = c :: rest.
+  Hypothesis I : InvS st log stk home no_extra.
+  Hypothesis U : InvU st log.
+  Hypothesis Hlen : len log < 65536.
+
+  Let sc := sc_of st c.
+  Let sc' := mkScope (sparent sc) (sfunc sc) (sdeclared sc) (sundeclared sc)
+                     (u16 (len (sdeclared sc))) (nfuncargs sc) (u16 (len (sundeclared sc))).
+  Let st' := sset st c sc'.
+
+  Lemma mf_c : (c < nscopes st)%nat.
+  Proof. apply (stack_ok_in st stk); [apply I|]. rewrite Hstk. left. reflexivity. Qed.
+
+  Lemma mf_sc s : sc_of st' s = if Nat.eqb s c then sc' else sc_of st s.
+  Proof.
+    unfold st'. destruct (Nat.eqb_spec s c) as [->|Hne].
+    - apply sc_of_sset_same. apply mf_c.
+    - apply sc_of_sset_other. congruence.
+  Qed.
+
+  Lemma mf_fields s :
+    sparent (sc_of st' s) = sparent (sc_of st s) /\ sfunc (sc_of st' s) = sfunc (sc_of st s) /\
+    sdeclared (sc_of st' s) = sdeclared (sc_of st s) /\ sundeclared (sc_of st' s) = sundeclared (sc_of st s).
+  Proof. rewrite mf_sc. destruct (Nat.eqb_spec s c) as [->|]; repeat split; reflexivity. Qed.
+
+  Lemma mf_decl_small : len (sdeclared sc) < 65536.
+  Proof.
+    assert (H : (length (sdeclared sc) <= nvars st)%nat).
+    { apply nodup_bounded_length.
+      - apply (NoDup_map_inv (vn st)). apply (I_decl_nodup _ _ _ _ _ I c mf_c).
+      - intros v Hv. apply (I_valid _ _ _ _ _ I c v mf_c). left. exact Hv. }
+    pose proof (I_nvars _ _ _ _ _ I). unfold len in *. lia.
+  Qed.
+
+  Lemma mf_und_small : len (sundeclared sc) < 65536.
+  Proof.
+    assert (H : (length (sundeclared sc) <= nvars st)%nat).
+    { apply nodup_bounded_length.
+      - apply (I_und_nodup _ _ _ _ _ I c). rewrite Hstk. left. reflexivity.
+      - intros v Hv. apply (I_valid _ _ _ _ _ I c v mf_c). right. exact Hv. }
+    pose proof (I_nvars _ _ _ _ _ I). unfold len in *. lia.
+  Qed.
+
+  Lemma InvS_mark_for : InvS st' log stk home no_extra.
+  Proof.
+    pose proof I as I'. dI I'.
+    assert (Ens : nscopes st' = nscopes st) by apply nscopes_sset.
+    constructor.
+    - eapply stack_ok_ext; [exact Istack|rewrite Ens; lia|]. intros s _. apply mf_fields.
+    - intros s g. rewrite Ens. destruct (mf_fields s) as (_ & -> & _). apply Ifunc.
+    - intros s v. rewrite Ens. destruct (mf_fields s) as (_ & _ & -> & ->). apply Ivalid.
+    - exact Ilinks.
+    - intros v Hv. rewrite Ens. apply Ihomes. exact Hv.
+    - exact Ilog.
+    - exact Invars.
+    - intros s v. rewrite Ens. destruct (mf_fields s) as (_ & _ & -> & _). apply Idecl.
+    - intros s. rewrite Ens. destruct (mf_fields s) as (_ & _ & -> & _). apply Idnodup.
+    - intros r. destruct (mf_fields (home r)) as (_ & _ & -> & _). apply Idcomp.
+    - intros s v. destruct (mf_fields s) as (_ & _ & _ & ->). apply Iund.
+    - intros s. destruct (mf_fields s) as (_ & _ & _ & ->). apply Iunodup.
+    - intros s v1 v2. destruct (mf_fields s) as (_ & _ & _ & ->). apply Ipuniq.
+    - intros r. destruct (mf_fields (home r)) as (_ & _ & _ & ->). apply Ipcomp.
+    - intros s Hs. destruct (mf_fields s) as (_ & _ & Ed & Eu). rewrite Ed, Eu.
+      rewrite mf_sc. destruct (Nat.eqb_spec s c) as [->|]; [|apply Imarks; exact Hs].
+      cbn [narguses nfordecls sc']. pose proof mf_und_small. pose proof mf_decl_small. fold sc.
+      pose proof (len_nonneg (sundeclared sc)). pose proof (len_nonneg (sdeclared sc)).
+      rewrite !u16_small by lia. lia.
+  Qed.
+
+  Lemma mark_for_all :
+    mark_for st c = Ok st' /\ InvS st' log stk home no_extra /\ InvU st' log /\
+    a_mark_for (abs st log stk home) = ARun (abs st' log stk home).
+  Proof.
+    split; [unfold mark_for; rewrite (sget_valid st c mf_c); reflexivity|].
+    split; [exact InvS_mark_for|]. split; [apply InvU_sset; exact U|].
+    assert (E1 : frame_of st' home c
+                 = mkF (fid (frame_of st home c)) (fisfunc (frame_of st home c)) (fdecl (frame_of st home c))
+                       (fund (frame_of st home c)) (length (fund (frame_of st home c))) (length (fdecl (frame_of st home c)))).
+    { unfold frame_of. rewrite mf_sc, Nat.eqb_refl. cbn [fid fisfunc fdecl fund fnfor sparent sfunc sdeclared sundeclared narguses nfordecls sc'].
+      fold sc. rewrite !map_length. pose proof mf_und_small. pose proof (len_nonneg (sundeclared sc)).
+      pose proof mf_decl_small. pose proof (len_nonneg (sdeclared sc)).
+      rewrite !u16_small by lia. unfold len. rewrite !Nat2Z.id. reflexivity. }
+    assert (E2 : map (frame_of st' home) rest = map (frame_of st home) rest).
+    { apply map_ext_in. intros s Hs. unfold frame_of. rewrite mf_sc.
+      destruct (Nat.eqb_spec s c) as [->|]; [|reflexivity].
+      pose proof (stack_ok_nodup _ _ (I_stack _ _ _ _ _ I)) as Hnd. rewrite Hstk in Hnd. inversion Hnd; contradiction. }
+    assert (E3 : map (lab_of st' home) log = map (lab_of st home) log).
+    { apply map_ext. intros w. apply lab_of_sset. }
+    unfold a_mark_for, abs. cbn [astack]. rewrite Hstk. cbn [map anext alog].
+    rewrite E1, E2, E3. unfold st'. rewrite nscopes_sset. reflexivity.
+  Qed.
+End MarkFor.
